@@ -93,6 +93,18 @@ def impl_instant(calendar: str, units: str) -> str:
     return f'{secs(d)} {1 if d.microsecond else 0}'
 
 
+def local_year_in_model_domain(units: str) -> bool:
+    """The model's calendar is defined for local years 1..9999 (Python datetimes); cftime itself also
+    reads e.g. year 10000 +10:00, whose UTC instant is still in 9999.  Such references are refused by
+    format_time_units_for_ems either way (compared through `fmt`), only `instant` is not compared."""
+    import cftime
+    try:
+        y = cftime._parse_date(cftime._datesplit(units)[1].strip())[0]
+    except Exception:
+        return True
+    return 1 <= y <= 9999
+
+
 def impl_parse(text: str) -> str:
     import cftime
     try:
@@ -385,7 +397,10 @@ def units_stream(ctx) -> None:
             ctx.nontrivial((cal, units))
         # the other cftime entry points on the same string
         iline = f'instant {calp} {esc(units)}'
-        side_items.append((iline, impl_instant(cal, units), {'op': iline}))
+        if local_year_in_model_domain(units):
+            side_items.append((iline, impl_instant(cal, units), {'op': iline}))
+        else:
+            ctx.count('instant:local-year-outside-1..9999(not compared)')
         sline = f'split {esc(units)}'
         side_items.append((sline, impl_split(units), {'op': sline}))
         parts = units.split(None, 2)
@@ -615,7 +630,7 @@ CONV_KIND = {'cf1d': 'generic', 'cf2d': 'generic', 'ugrid': 'generic',
              'shoc_standard': 'shoc_standard', 'shoc_simple': 'shoc_simple'}
 
 
-def add_time_candidates(ds, cands: list, nt: int):
+def add_time_candidates(ds, cands: list, nt: int, tdim: str = 'time'):
     """cands: [(name, encoding-units | None, is_datetime, as_coord)] appended in order"""
     import xarray as xr
     for name, units, is_dt, as_coord in cands:
@@ -623,7 +638,7 @@ def add_time_candidates(ds, cands: list, nt: int):
             data = np.array([np.datetime64('2000-01-01T00:00:00', 's') + np.timedelta64(k, 'D') for k in range(nt)])
         else:
             data = np.arange(nt, dtype='f8')
-        da = xr.DataArray(data, dims=['time'])
+        da = xr.DataArray(data, dims=[tdim])
         if units is not None:
             da.encoding['units'] = units
             if is_dt:
@@ -636,43 +651,98 @@ def add_time_candidates(ds, cands: list, nt: int):
 
 
 def timecoord_stream(ctx) -> None:
+    import netCDF4
     from emsarray.exceptions import NoSuchCoordinateError
     rng = ctx.rng
     items = []
-    for k in range(ctx.budget(40, 300)):
-        conv = G.CONVS[k % len(G.CONVS)]
-        recipe = G.random_recipe(rng, conv, 'quick', **({'holes': False} if conv not in ('ugrid', 'cf1d') else {}))
-        built = G.build(recipe)
-        names = rng.sample(['time', 't', 'record', 'Time', 'date', 'ocean_time', 'tt'], rng.randint(0, 4))
-        cands = []
-        for name in names:
-            units = rng.choice([None, 'days since 1990-01-01', 'days since 1990-01-01 00:00:00 +10:00', 'days',
-                                'seconds since', 'since', 'hours Since 2000-01-01', 'sincerely'])
-            is_dt = rng.random() < 0.7
-            cands.append((name, units, is_dt, rng.random() < 0.5 and name == 'time'))
-        ds = add_time_candidates(built.ds, cands, 2)
-        built.ds = ds
-        c = G.bind(built)
-        try:
-            got = str(c.time_coordinate.name)
-        except NoSuchCoordinateError:
-            got = '-'
-        except Exception as e:   # noqa
-            got = f'ERR {type(e).__name__}'
-        # ground truth in dataset.variables order
-        order = list(ds.variables.keys())
-        vs = []
-        for name in order:
-            spec = next((cd for cd in cands if cd[0] == name), None)
-            if spec is None:
-                vs.append(f'{name}|!|0')
+    pending = []     # (line tail, impl discovery, impl save outcome, desc)
+    tmp = tempfile.mkdtemp(prefix='c17tc')
+    try:
+        for k in range(ctx.budget(40, 300)):
+            conv = G.CONVS[k % len(G.CONVS)]
+            recipe = G.random_recipe(rng, conv, 'quick', **({'holes': False} if conv not in ('ugrid', 'cf1d') else {}))
+            built = G.build(recipe)
+            names = rng.sample(['time', 't', 'record', 'Time', 'date', 'ocean_time', 'tt'], rng.randint(0, 4))
+            cands = []
+            for name in names:
+                units = rng.choice([None, 'days since 1990-01-01', 'days since 1990-01-01 00:00:00 +10:00', 'days',
+                                    'hours since 2000-01-01 12:00:00', 'since', 'hours Since 2000-01-01', 'sincerely'])
+                is_dt = rng.random() < 0.7
+                cands.append((name, units, is_dt, rng.random() < 0.5 and name == 'time'))
+            tdim = rng.choice(['time', 'time', 'record', 't'])
+            ds = add_time_candidates(built.ds, cands, 2, tdim)
+            if not cands and rng.random() < 0.7:
+                import xarray as xr
+                ds['temp'] = xr.DataArray(np.arange(2.0), dims=[tdim])
+            built.ds = ds
+            c = G.bind(built)
+            try:
+                got = str(c.time_coordinate.name)
+            except NoSuchCoordinateError:
+                got = '-'
+            except Exception as e:   # noqa
+                got = f'ERR {type(e).__name__}'
+            order = list(ds.variables.keys())
+            vs = []
+            for name in order:
+                spec = next((cd for cd in cands if cd[0] == name), None)
+                if spec is None:
+                    vs.append(f'{name}|!|0')
+                else:
+                    vs.append(f"{name}|{'!' if spec[1] is None else esc(spec[1])}|{int(spec[2])}")
+            dims = ','.join(str(d) for d in ds.sizes) or '-'
+            tail = f"{CONV_KIND[conv]} {dims} {';'.join(vs)}"
+            desc = {'op': f'timecoord {tail}', 'recipe': recipe, 'cands': cands, 'tdim': tdim}
+            # the save itself: which variable has its units rewritten
+            saved = None
+            raw, out = os.path.join(tmp, 'raw.nc'), os.path.join(tmp, 'out.nc')
+            try:
+                ds.to_netcdf(raw)
+                plain_ok = True
+            except Exception:
+                plain_ok = False
+            if plain_ok:
+                try:
+                    c.to_netcdf(out)
+                    with netCDF4.Dataset(raw) as a, netCDF4.Dataset(out) as b:
+                        changed = [n for n in a.variables if getattr(a.variables[n], 'units', None) != getattr(b.variables[n], 'units', None)]
+                    saved = changed[0] if len(changed) == 1 else ('-' if not changed else 'MANY ' + ','.join(changed))
+                except Exception as e:
+                    saved = 'ERR'
+                    ctx.evaluated()
+                    sig = 'save-raises-time-dimension-only' if 'does not have a data array named' in str(e) else 'save-raises'
+                    named = {'shoc_standard': 't', 'shoc_simple': 'time'}.get(conv)
+                    spec = next((cd for cd in cands if cd[0] == named), None)
+                    if spec is not None and not spec[2]:
+                        # a SHOC dataset whose `t` / `time` variable is not a time variable: outside the quantifier
+                        ctx.count('timecoord:shoc-named-variable-is-not-a-time(outside quantifier)')
+                    else:
+                        ctx.oracle_fail(sig, desc, f'{type(c).__name__}.to_netcdf raised {type(e).__name__}: {str(e)[:160]} on a dataset '
+                                                   f'with dimensions {dims} and variables {order} that plain xarray writes fine')
+            pending.append((tail, got, saved, desc))
+            ctx.nontrivial(('timecoord', conv, tdim, tuple(map(tuple, cands))))
+            ctx.count(f'timecoord:{conv}:' + ('found' if got != '-' else 'none'))
+    finally:
+        shutil.rmtree(tmp, ignore_errors=True)
+    if ctx.driver is None:
+        ctx.evaluated(len(pending))
+        return
+    prim = ctx.model([f'timecoord {t}' for t, *_ in pending])
+    cur = ctx.model([f'timecoordcur {t}' for t, *_ in pending])
+    sav = ctx.model([f'savetime {t}' for t, *_ in pending])
+    for (tail, got, saved, desc), p, q, sv in zip(pending, prim, cur, sav):
+        ctx.evaluations += 1
+        ctx.traces += 1
+        if got != p:
+            if got == q:
+                # the present SHOC override returns a bare dimension as the time coordinate
+                ctx.count('impl=quirk-model(time dimension without variable)')
+                if saved != 'ERR':
+                    ctx.oracle_fail('time-coordinate-not-a-variable', desc, f'time_coordinate is {got!r}, which is not a variable of the dataset')
             else:
-                vs.append(f"{name}|{'!' if spec[1] is None else esc(spec[1])}|{int(spec[2])}")
-        line = f"timecoord {CONV_KIND[conv]} {';'.join(vs)}"
-        items.append((line, got, {'op': line, 'recipe': recipe, 'cands': cands}))
-        ctx.nontrivial(('timecoord', conv, tuple(map(tuple, cands))))
-        ctx.count(f'timecoord:{conv}:' + ('found' if got != '-' else 'none'))
-    ctx.check_batch(items)
+                ctx.disagree(f'timecoord {tail}', got, p, desc)
+        if saved is not None and saved != sv:
+            ctx.disagree(f'savetime {tail}', saved, sv, desc)
 
 
 # --------------------------------------------------------------------------
@@ -701,6 +771,11 @@ def roundtrip_recipe(ctx, conv: str) -> dict:
     rng = ctx.rng
     recipe = G.random_recipe(rng, conv, 'quick')
     recipe = G.attach_vars(rng, recipe, n_vars=4, dtypes=('f8', 'f8', 'i4', 'i4fill', 'i4missing'), with_nan=True)
+    if conv == 'shoc_simple':
+        # ShocSimple.topology reads attrs['standard_name'] of every (j, i) variable it meets before
+        # the latitude (KeyError otherwise; recorded in DESIGN.md as outside the properties)
+        for vr in recipe['vars']:
+            vr['attrs'] = {'standard_name': 'tag_' + vr['name']}
     periods = ['seconds', 'minutes', 'hours', 'days']
     while True:
         case = TU.random_case(rng, periods=periods, calendar=rng.choice(['proleptic_gregorian'] * 4 + ['standard']))
@@ -791,7 +866,14 @@ def run_roundtrip(ctx, rt: dict, tmp: str) -> list:
     except Exception as e:   # noqa
         ctx.count('roundtrip:xarray-cannot-write-time')
         return []
-    expect_found = tname in {'shoc_standard': ['t'], 'shoc_simple': ['time']}.get(conv, [tname])
+    if conv in ('shoc_standard', 'shoc_simple'):
+        expect_found = tname == {'shoc_standard': 't', 'shoc_simple': 'time'}[conv]
+    else:
+        # generic rule: datetime64 dtype (a reference too far from 1970 for nanoseconds comes back from
+        # a file as cftime objects - xarray's decision - and is then not a time coordinate)
+        expect_found = source[tname].dtype.kind == 'M'
+        if not expect_found:
+            ctx.count('roundtrip:time-not-datetime64(no rewrite expected)')
     out_path = os.path.join(tmp, 'out.nc')
     ctx.count(f'roundtrip:{conv}:{rt["mode"]}')
     ctx.evaluated()
@@ -846,10 +928,8 @@ def run_roundtrip(ctx, rt: dict, tmp: str) -> list:
     if polys2 != src_polys:
         bad = next((k for k, (a, b) in enumerate(zip(src_polys, polys2)) if a != b), None)
         ctx.oracle_fail('polygons-changed', desc, f'polygon {bad} differs after the round trip ({len(src_polys)} -> {len(polys2)} cells)')
-    truth = [None if q is None else frozenset(q) for q in built.polys]
-    got = [None if p is None else frozenset((util.frac(x), util.frac(y)) for x, y in list(p.exterior.coords)[:-1]) for p in c2.polygons]
-    if truth != got:
-        ctx.oracle_fail('polygons-not-as-generated', desc, 'reopened polygons differ from the generator\'s ground truth')
+    # (whether the polygons are the *right* ones for the coordinates is property C06; here the source's
+    # polygons, computed before saving, are the reference)
     for name, info in built.vars.items():
         want = expected_values(info)
         if name not in ds2.variables:
